@@ -28,7 +28,7 @@ m = {
     'engines': [
         {'name': 'mirsym', 'path': '/verif/mirsym', 'serves_properties': sorted(CHECKS), 'kind_free_text': 'symbolic execution of rustc MIR (regenerated from /repo on every run) into integer-arithmetic SMT with exact machine semantics; z3 decides path-condition ∧ ¬goal per path; bounded by loop unrollings stated per obligation'},
     ] + ([] if not __import__('os').path.isdir('/verif/kani') else [
-        {'name': 'kani', 'path': '/verif/kani', 'serves_properties': sorted(p for p in CHECKS if 'kani' in CHECKS[p].get('engine', '')), 'kind_free_text': 'Kani 0.68 / CBMC 6.11 proof harnesses over the real crate (path dependency), unwinding assertions on'},
+        {'name': 'kani', 'path': '/verif/kani', 'serves_properties': sorted(p for p in CHECKS if 'kani' in CHECKS[p].get('engine', '')), 'kind_free_text': 'Kani 0.68 / CBMC 6.11 proof harnesses over the compiled real crates (path dependency, stub kit for error construction/logging, unwinding assertions on, cover! witnesses); thorough tier only; a failed harness makes the obligation undecided (exit 2), a tool error is recorded and ignored'},
     ]),
     'checks': checks,
     'not_applicable': na,
